@@ -230,6 +230,7 @@ const toolDriverSource = `package main
 
 import (
 	"bytes"
+	"io"
 	"strings"
 
 	"github.com/mna/pigeon/ast"
@@ -272,10 +273,34 @@ func verifRebuild(c *tooldriver.Case, src []byte) (out1, out2 []byte, err1, err2
 		return nil, nil, err.Error(), err.Error()
 	}
 	gr := g.(*ast.Grammar)
+	var b1, b2 bytes.Buffer
+	if c.RebuildVariant == 2 && optimize {
+		// built once as parsed, optimised afterwards, built again ...
+		builder.BuildParser(io.Discard, gr, opts...)
+		ast.Optimize(gr, alt...)
+		if e := builder.BuildParser(&b1, gr, opts...); e != nil {
+			err1 = e.Error()
+		}
+		// ... against: parsed, optimised, built
+		g2, err := ParseReader("grammar.peg", bytes.NewReader(src))
+		if err != nil {
+			return nil, nil, err.Error(), err.Error()
+		}
+		gr2 := g2.(*ast.Grammar)
+		ast.Optimize(gr2, alt...)
+		if e := builder.BuildParser(&b2, gr2, opts...); e != nil {
+			err2 = e.Error()
+		}
+		return b1.Bytes(), b2.Bytes(), err1, err2
+	}
 	if optimize {
 		ast.Optimize(gr, alt...)
 	}
-	var b1, b2 bytes.Buffer
+	if c.RebuildVariant == 1 {
+		// a build whose destination fails part-way: whatever it leaves behind in
+		// this process must not show in the builds that follow
+		builder.BuildParser(&tooldriver.FailingWriter{N: c.RebuildFailAt}, gr, opts...)
+	}
 	if e := builder.BuildParser(&b1, gr, opts...); e != nil {
 		err1 = e.Error()
 	}
